@@ -102,6 +102,10 @@ for key0, (what, needs), rnd, pref in ALL:
     src = "/tmp/mut/%s-%s-out" % (rnd, prop)
     suf = pn[len("patch"):]
     conf = "/var/tmp/seedconfirm/%s.txt" % key
+    if key == "C20-patch2":
+        # the pinned suite's sit_vector_jtest loops for ever under this change (its log grew to 115 GB): not a valid seed
+        shutil.rmtree(os.path.join(V, "seeded", "C20-b"), ignore_errors=True)
+        print("dropped (pinned suite hangs):", key); continue
     if not os.path.exists(conf):
         continue
     c = open(conf).read()
